@@ -63,19 +63,19 @@ Proof.
   destruct (m (firstn (S k) s)); [reflexivity|exact IH].
 Qed.
 
-Lemma smallest_prefix_go_find s iters : forall c,
-  smallest_prefix_go m s iters c =
+Lemma smallest_prefix_go_old_find s iters : forall c,
+  smallest_prefix_go_old m s iters c =
   match find_up (Pp s) iters (S c) with Some j => skipn j s | None => s end.
 Proof.
-  induction iters as [|it IH]; intros c; [reflexivity|]. cbn [smallest_prefix_go find_up]. unfold Pp at 1.
+  induction iters as [|it IH]; intros c; [reflexivity|]. cbn [smallest_prefix_go_old find_up]. unfold Pp at 1.
   destruct (m (firstn (S c) s)); [reflexivity|apply IH].
 Qed.
 
-Lemma smallest_prefix_go'_find s iters : forall idx,
-  smallest_prefix_go' m s iters idx =
+Lemma smallest_prefix_go_find s iters : forall idx,
+  smallest_prefix_go m s iters idx =
   match find_up (Pp s) iters idx with Some j => skipn j s | None => s end.
 Proof.
-  induction iters as [|it IH]; intros idx; [reflexivity|]. cbn [smallest_prefix_go' find_up]. unfold Pp at 1.
+  induction iters as [|it IH]; intros idx; [reflexivity|]. cbn [smallest_prefix_go find_up]. unfold Pp at 1.
   destruct (m (firstn idx s)); [reflexivity|apply IH].
 Qed.
 
@@ -87,19 +87,19 @@ Proof.
   destruct (m (skipn idx s)); [reflexivity|apply IH].
 Qed.
 
+Lemma smallest_suffix_go_old_find s k :
+  smallest_suffix_go_old m s k =
+  match find_down (Ps s) k with Some j => firstn j s | None => s end.
+Proof.
+  induction k as [|k IH]; [reflexivity|]. cbn [smallest_suffix_go_old find_down]. unfold Ps at 1.
+  destruct (m (skipn k s)); [reflexivity|exact IH].
+Qed.
+
 Lemma smallest_suffix_go_find s k :
   smallest_suffix_go m s k =
   match find_down (Ps s) k with Some j => firstn j s | None => s end.
 Proof.
   induction k as [|k IH]; [reflexivity|]. cbn [smallest_suffix_go find_down]. unfold Ps at 1.
-  destruct (m (skipn k s)); [reflexivity|exact IH].
-Qed.
-
-Lemma smallest_suffix_go'_find s k :
-  smallest_suffix_go' m s k =
-  match find_down (Ps s) k with Some j => firstn j s | None => s end.
-Proof.
-  induction k as [|k IH]; [reflexivity|]. cbn [smallest_suffix_go' find_down]. unfold Ps at 1.
   destruct (m (skipn k s)); [reflexivity|exact IH].
 Qed.
 
@@ -146,9 +146,9 @@ Proof.
 Qed.
 
 (** [#] after the repair: correct at full strength. *)
-Theorem remove_smallest_prefix_repaired_spec s : smallest_prefix_spec m s (remove_smallest_prefix' m s).
+Theorem remove_smallest_prefix_repaired_spec s : smallest_prefix_spec m s (remove_smallest_prefix m s).
 Proof.
-  unfold remove_smallest_prefix', smallest_prefix_spec. rewrite smallest_prefix_go'_find.
+  unfold remove_smallest_prefix, smallest_prefix_spec. rewrite smallest_prefix_go_find.
   destruct (find_up _ (S (length s)) 0) as [j|] eqn:E.
   - apply find_up_some in E as (Hr & Hp & Hlt).
     apply (removal_at _ _ (fun k => skipn k s) s j); [split; [lia|exact Hp]|].
@@ -159,9 +159,9 @@ Proof.
 Qed.
 
 (** [%] after the repair: correct at full strength. *)
-Theorem remove_smallest_suffix_repaired_spec s : smallest_suffix_spec m s (remove_smallest_suffix' m s).
+Theorem remove_smallest_suffix_repaired_spec s : smallest_suffix_spec m s (remove_smallest_suffix m s).
 Proof.
-  unfold remove_smallest_suffix', smallest_suffix_spec. rewrite smallest_suffix_go'_find.
+  unfold remove_smallest_suffix, smallest_suffix_spec. rewrite smallest_suffix_go_find.
   destruct (find_down _ (S (length s))) as [j|] eqn:E.
   - apply find_down_some in E as (Hr & Hp & Hgt).
     apply (removal_at _ _ (fun k => firstn k s) s j); [split; [lia|exact Hp]|].
@@ -174,9 +174,9 @@ Qed.
 (** [#] and [%] on the unchanged tree: correct whenever the pattern does not match the empty
     string (the class of the open finding is exactly [m [] = true]). *)
 Theorem remove_smallest_prefix_outside_known s : m [] = false ->
-  smallest_prefix_spec m s (remove_smallest_prefix m s).
+  smallest_prefix_spec m s (remove_smallest_prefix_old m s).
 Proof.
-  intros E0. unfold remove_smallest_prefix, smallest_prefix_spec. rewrite smallest_prefix_go_find.
+  intros E0. unfold remove_smallest_prefix_old, smallest_prefix_spec. rewrite smallest_prefix_go_old_find.
   destruct (find_up _ (length s) 1) as [j|] eqn:E.
   - apply find_up_some in E as (Hr & Hp & Hlt).
     apply (removal_at _ _ (fun k => skipn k s) s j); [split; [lia|exact Hp]|].
@@ -187,9 +187,9 @@ Proof.
 Qed.
 
 Theorem remove_smallest_suffix_outside_known s : m [] = false ->
-  smallest_suffix_spec m s (remove_smallest_suffix m s).
+  smallest_suffix_spec m s (remove_smallest_suffix_old m s).
 Proof.
-  intros E0. unfold remove_smallest_suffix, smallest_suffix_spec. rewrite smallest_suffix_go_find.
+  intros E0. unfold remove_smallest_suffix_old, smallest_suffix_spec. rewrite smallest_suffix_go_old_find.
   destruct (find_down _ (length s)) as [j|] eqn:E.
   - apply find_down_some in E as (Hr & Hp & Hgt).
     apply (removal_at _ _ (fun k => firstn k s) s j); [split; [lia|exact Hp]|].
@@ -262,15 +262,15 @@ Theorem remove_largest_prefix_eq m s : remove_largest_prefix m s = spec_remove_p
 Proof. eapply removal_spec_functional; [apply remove_largest_prefix_spec|apply spec_remove_prefix_sound]. Qed.
 Theorem remove_largest_suffix_eq m s : remove_largest_suffix m s = spec_remove_suffix false m s.
 Proof. eapply removal_spec_functional; [apply remove_largest_suffix_spec|apply (spec_remove_suffix_sound false)]. Qed.
-Theorem remove_smallest_prefix_repaired_eq m s : remove_smallest_prefix' m s = spec_remove_prefix true m s.
+Theorem remove_smallest_prefix_repaired_eq m s : remove_smallest_prefix m s = spec_remove_prefix true m s.
 Proof. eapply removal_spec_functional; [apply remove_smallest_prefix_repaired_spec|apply spec_remove_prefix_sound]. Qed.
-Theorem remove_smallest_suffix_repaired_eq m s : remove_smallest_suffix' m s = spec_remove_suffix true m s.
+Theorem remove_smallest_suffix_repaired_eq m s : remove_smallest_suffix m s = spec_remove_suffix true m s.
 Proof. eapply removal_spec_functional; [apply remove_smallest_suffix_repaired_spec|apply (spec_remove_suffix_sound true)]. Qed.
 Theorem remove_smallest_prefix_eq_outside_known m s : m [] = false ->
-  remove_smallest_prefix m s = spec_remove_prefix true m s.
+  remove_smallest_prefix_old m s = spec_remove_prefix true m s.
 Proof. intros H. eapply removal_spec_functional; [apply remove_smallest_prefix_outside_known; exact H|apply spec_remove_prefix_sound]. Qed.
 Theorem remove_smallest_suffix_eq_outside_known m s : m [] = false ->
-  remove_smallest_suffix m s = spec_remove_suffix true m s.
+  remove_smallest_suffix_old m s = spec_remove_suffix true m s.
 Proof. intros H. eapply removal_spec_functional; [apply remove_smallest_suffix_outside_known; exact H|apply (spec_remove_suffix_sound true)]. Qed.
 
 (** * The unchanged loops are refuted inside the class: the matcher of the pattern [*]
@@ -279,19 +279,19 @@ Definition m_star : str -> bool := fun _ => true.
 Definition abc : str := [97; 98; 99]%N.
 
 Theorem remove_smallest_prefix_refuted :
-  exists m s, ~ smallest_prefix_spec m s (remove_smallest_prefix m s).
+  exists m s, ~ smallest_prefix_spec m s (remove_smallest_prefix_old m s).
 Proof.
   exists m_star, abc. intros H.
-  assert (E : remove_smallest_prefix m_star abc = spec_remove_prefix true m_star abc).
+  assert (E : remove_smallest_prefix_old m_star abc = spec_remove_prefix true m_star abc).
   { eapply removal_spec_functional; [exact H|apply spec_remove_prefix_sound]. }
   vm_compute in E. discriminate.
 Qed.
 
 Theorem remove_smallest_suffix_refuted :
-  exists m s, ~ smallest_suffix_spec m s (remove_smallest_suffix m s).
+  exists m s, ~ smallest_suffix_spec m s (remove_smallest_suffix_old m s).
 Proof.
   exists m_star, abc. intros H.
-  assert (E : remove_smallest_suffix m_star abc = spec_remove_suffix true m_star abc).
+  assert (E : remove_smallest_suffix_old m_star abc = spec_remove_suffix true m_star abc).
   { eapply removal_spec_functional; [exact H|apply (spec_remove_suffix_sound true)]. }
   vm_compute in E. discriminate.
 Qed.
